@@ -150,3 +150,18 @@ Proof.
   split; [apply (nv_long ex_ctx ex_attrs false S_beta 1%nat); [reflexivity|discriminate|vm_compute; reflexivity|reflexivity]|].
   apply bt_unknown_long; [reflexivity|discriminate|vm_compute; reflexivity|discriminate].
 Qed.
+
+(* Contexts that were put together with REFUSED adds in between (seeded change C13-r6): the case format carries those adds in a
+   trailer behind the payload and the generator's intent; run_case never looks behind the payload, i.e. for the model a refused
+   option is simply not an option of the context and its long name is an ordinary unknown name.  Non-vacuity on the demonstration
+   scenario  options[help,-h; number,-n; output,-o], add of `verbose,-h` refused after two options, allowUnreg,
+   argv = --number=4 --verbose=3 -o x.lp :  pairs (number,4) (output,x.lp), remaining arguments --verbose=3 - with and without the trailer. *)
+Definition ex_refused_case : list Z :=
+  [3; 4;104;101;108;112; 104;0;0; 6;110;117;109;98;101;114; 110;2;0; 6;111;117;116;112;117;116; 111;2;1; 0; 1;0;0;0; 0;
+   4; 10;45;45;110;117;109;98;101;114;61;52; 11;45;45;118;101;114;98;111;115;101;61;51; 2;45;111; 4;120;46;108;112;
+   1;0;2; 1;1;52; 2;4;120;46;108;112; 1; 11;45;45;118;101;114;98;111;115;101;61;51].
+Definition ex_refused_trailer : list Z := [1; 2;1; 7;118;101;114;98;111;115;101; 104;0;0].
+Example ex_refused_names_are_unknown :
+  run_case (ex_refused_case ++ ex_refused_trailer) = run_case ex_refused_case /\
+  run_case ex_refused_case = [0; 2; 1; 1;52; 2; 4;120;46;108;112; 1; 11;45;45;118;101;114;98;111;115;101;61;51].
+Proof. split; vm_compute; reflexivity. Qed.
